@@ -74,6 +74,10 @@ CHECKS = {
    text="Every place where the order of evaluation is not fixed by the program text is listed from the current source by the translator (ranges over maps, traversals of the dependency's shuffling hash table, go/select statements, writes to package variables, time/random/environment calls). Each traversal is modelled in Coq as a fold over an ARBITRARY permutation of the keys and the theorems of Props/C15.v say the observable result does not depend on it: keys collected then sorted (canonical sort over a total order, for states and for strings), insertion into an ordered store, per-entry update, and the concrete models of the terminal map of Spec.DFA (closed form: the owned states in ascending order; conflicts in ascending state order), of SymbolTable.Verify's diagnostics and of Definitions(). The check matches every site with the theorem that covers its loop shape; the models are compared (content AND order) with spec.Parse / Spec.DFA under two delivery orders; each specification is re-run in-process (new map orders each time) and in fresh processes, comparing the bytes of every file, the messages without emoji and the status.",
    note=TB + "Determinism of the dependency's ordered containers (red-black tables, automata) is trusted and exercised by the repeated runs; scheduling/OS-level determinism is runtime. D18, D19 were found and fixed; D19c (order of the dependency's grammar.Verify lines) is a known finding.",
    tech="proof over permutation-parametrised models of every iteration site; site list regenerated from source (go/types); correspondence and repeated runs"),
+ "C17": dict(cat="proof",
+   text="The translator lists every package-level variable of /repo with every write, method call and escape; the check accepts only variables never modified after initialisation (so a new cache or shared buffer is an unproved obligation). The one variable that was modified, the hasher of hashStrings, is modelled (FNV-1 64, Reset / Write per symbol / Sum64 as atomic steps) and the theorems of Props/C17.v say: a call's result does not depend on the hasher's history; ANY computation using the hasher only through hashStrings returns the result of a fresh process whatever was processed before (sequential independence, all histories); with a hasher per call EVERY interleaving of two goroutines' steps gives each its isolated result; with a shared hasher some interleaving does not (refuted statement = the repaired defect). Tie: hashStrings vs the model on calls made in one process; random orders of specifications and patterns in one process vs fresh-process results; concurrent parses under the race detector with every report attributed to the owner of the state.",
+   note=TB + "The Go memory model and the scheduler are not modelled; interleavings are proved for /repo's own state only. The dependency's shared hash functions make concurrent parses race and panic (known finding D20). D20a (/repo's own shared hasher) was found and fixed.",
+   tech="proof over a shared-state model (history independence, interleaving safety of private state); package-variable list regenerated from source; race detector and order sweeps for correspondence"),
 }
 
 ORDER = sorted(CHECKS)
